@@ -12,11 +12,46 @@ import (
 	"crypto/sha256"
 	"crypto/sha512"
 	"encoding/binary"
+	"encoding/hex"
 	"math/big"
 	"unicode/utf8"
 
 	"golang.org/x/text/unicode/norm"
 )
+
+// ---- primitive layer with an optional tape: every call of SHA-2 / AES made by the independent implementation can be
+// recorded ("md5(prim:arghex:...)=resulthex") and replayed by the extracted Coq model, whose primitives are parameters.
+var tape *[]string
+
+func rec(prim string, out []byte, args ...[]byte) []byte {
+	if tape != nil {
+		h := md5.New()
+		h.Write([]byte(prim))
+		for _, a := range args {
+			h.Write([]byte(":" + hex.EncodeToString(a)))
+		}
+		*tape = append(*tape, hex.EncodeToString(h.Sum(nil))+"="+hex.EncodeToString(out))
+	}
+	return out
+}
+
+func h256(b []byte) []byte { s := sha256.Sum256(b); return rec("h256", s[:], b) }
+func h384(b []byte) []byte { s := sha512.Sum384(b); return rec("h384", s[:], b) }
+func h512(b []byte) []byte { s := sha512.Sum512(b); return rec("h512", s[:], b) }
+
+func ecb(key, block []byte, enc bool) []byte {
+	c, err := aes.NewCipher(key)
+	if err != nil {
+		panic(err)
+	}
+	out := make([]byte, 16)
+	if enc {
+		c.Encrypt(out, block)
+		return rec("ee", out, key, block)
+	}
+	c.Decrypt(out, block)
+	return rec("ed", out, key, block)
+}
 
 var padding = []byte("\x28\xBF\x4E\x5E\x4E\x75\x8A\x41\x64\x00\x4E\x56\xFF\xFA\x01\x08\x2E\x2E\x00\xB6\xD0\x68\x3E\x80\x2F\x0C\xA9\xFE\x64\x53\x69\x7A")
 
@@ -151,16 +186,15 @@ func aesCBC(key, iv, data []byte, enc bool) []byte {
 	out := make([]byte, len(data))
 	if enc {
 		cipher.NewCBCEncrypter(b, iv).CryptBlocks(out, data)
-	} else {
-		cipher.NewCBCDecrypter(b, iv).CryptBlocks(out, data)
+		return rec("ce", out, key, iv, data)
 	}
-	return out
+	cipher.NewCBCDecrypter(b, iv).CryptBlocks(out, data)
+	return rec("cd", out, key, iv, data)
 }
 
 // Algorithm 2.B; returns the hash and the number of rounds
 func iAlg2B(input, pw, udata []byte) ([]byte, int) {
-	s := sha256.Sum256(input)
-	k := s[:]
+	k := h256(input)
 	round := 0
 	for {
 		seq := append(append(append([]byte{}, pw...), k...), udata...)
@@ -168,14 +202,11 @@ func iAlg2B(input, pw, udata []byte) ([]byte, int) {
 		e := aesCBC(k[:16], k[16:32], k1, true)
 		switch new(big.Int).Mod(new(big.Int).SetBytes(e[:16]), big.NewInt(3)).Int64() {
 		case 0:
-			s := sha256.Sum256(e)
-			k = s[:]
+			k = h256(e)
 		case 1:
-			s := sha512.Sum384(e)
-			k = s[:]
+			k = h384(e)
 		default:
-			s := sha512.Sum512(e)
-			k = s[:]
+			k = h512(e)
 		}
 		round++ // number of the next round
 		if round >= 64 && int(e[len(e)-1]) <= round-32 {
@@ -190,8 +221,7 @@ func iHash(r int, input, pw, udata []byte) []byte {
 		h, _ := iAlg2B(input, pw, udata)
 		return h
 	}
-	s := sha256.Sum256(input)
-	return s[:]
+	return h256(input)
 }
 
 func cat(bs ...[]byte) []byte {
@@ -229,10 +259,7 @@ func iAlg10(p int64, encMeta bool, rnd4, fileKey []byte) []byte {
 	}
 	copy(b[9:], "adb")
 	copy(b[12:], rnd4)
-	c, _ := aes.NewCipher(fileKey)
-	out := make([]byte, 16)
-	c.Encrypt(out, b)
-	return out
+	return ecb(fileKey, b, true)
 }
 
 // Algorithm 11 + 2.A(e)
@@ -259,12 +286,10 @@ func iAlg12(r int, pw, o, oe, u []byte) (bool, []byte) {
 
 // Algorithm 13
 func iAlg13(perms, fileKey []byte, p int64, encMeta bool) bool {
-	c, err := aes.NewCipher(fileKey)
-	if err != nil || len(perms) < 16 {
+	if len(fileKey) != 32 || len(perms) < 16 {
 		return false
 	}
-	d := make([]byte, 16)
-	c.Decrypt(d, perms)
+	d := ecb(fileKey, perms[:16], false)
 	want := byte('F')
 	if encMeta {
 		want = 'T'
